@@ -392,6 +392,76 @@ def _nonzero_guard(ctx, f, node, den):
     return None
 
 
+def _nonzero_field(ctx, f, den):
+    """The denominator is `self.X` in a method of a small class whose field X is assigned only in `__init__`, from a
+    parameter, and every construction of the class in the package passes for that parameter an expression that a guard at
+    the construction site keeps away from zero (a closure turned into a callable object keeps its guard at the factory)."""
+    P = ctx.P
+    g0 = f
+    while g0 is not None and g0.cls is None:
+        g0 = g0.parent
+    if g0 is None or not g0.params or not (isinstance(den, ast.Attribute) and isinstance(den.value, ast.Name) and den.value.id == g0.params[0]):
+        return None
+    cls, attr = g0.cls, den.attr
+    init = P.method(cls, "__init__")
+    if init is None or not init.params:
+        return None
+    stores = []
+    for m in P.funcs.values():
+        for n in ast.walk(m.node) if not m.is_lambda else []:
+            if isinstance(n, ast.Attribute) and n.attr == attr and isinstance(n.ctx, (ast.Store, ast.Del)):
+                top = m
+                while top is not None and top.cls is None:
+                    top = top.parent
+                if top is not None and top.params and isinstance(n.value, ast.Name) and n.value.id == top.params[0]:
+                    # a store on the method's own receiver: relevant only for classes related to this one
+                    if top.cls in P.mro(cls) or cls in P.mro(top.cls):
+                        stores.append((m, n))
+                    continue
+                ks = ctx.types.classes_of(n.value, m, m.module)
+                if not ks or any(k in P.mro(cls) or cls in P.mro(k) for k in ks):
+                    stores.append((m, n))
+    if not stores or any(m is not init for m, _ in stores):
+        return None
+    pnames = set()
+    for m, n in stores:
+        par = getattr(n, "_parent", None)
+        if not (isinstance(par, ast.Assign) and len(par.targets) == 1 and isinstance(par.value, ast.Name) and par.value.id in init.params[1:]):
+            return None
+        pnames.add(par.value.id)
+    if len(pnames) != 1:
+        return None
+    pn = next(iter(pnames))
+    idx = init.params.index(pn) - 1
+    sites = []
+    for caller, lst in ctx.cg.sites.items():
+        for call, quals in lst:
+            if init.qual in quals:
+                sites.append((P.funcs.get(caller), call))
+    if not sites:
+        return None
+    why = []
+    for cf, call in sites:
+        if cf is None:
+            return None
+        a = None
+        if idx < len(call.args) and not any(isinstance(x, ast.Starred) for x in call.args[: idx + 1]):
+            a = call.args[idx]
+        for kw in call.keywords:
+            if kw.arg == pn:
+                a = kw.value
+        if a is None:
+            return None
+        gd = _nonzero_guard(ctx, cf, call, a)
+        if not gd:
+            c = _const_expr(a, cf.module)
+            if c is not True:
+                return None
+            gd = "non-zero constant"
+        why.append("%s: %s" % (cf.qual, gd))
+    return "field `%s` of %s is set once, by the constructor, from an argument that is non-zero at every construction site (%s)" % (attr, cls.name, "; ".join(sorted(set(why)))[:200])
+
+
 def _nonzero_param(ctx, f, den):
     """The denominator is a parameter of f or of an enclosing (factory) function that is never reassigned, and every call
     of that function in the package passes a non-zero numeric constant for it."""
@@ -529,7 +599,7 @@ def divzero_sites(ctx, R, rule_id, reach):
             if c is False:
                 R.bad(rule_id, keyt, where(f, nd), "%s by the constant zero" % what)
                 continue
-            g = _nonzero_guard(ctx, f, nd, den) or _nonzero_param(ctx, f, den)
+            g = _nonzero_guard(ctx, f, nd, den) or _nonzero_param(ctx, f, den) or _nonzero_field(ctx, f, den)
             if g:
                 R.ok(rule_id, keyt, where(f, nd), "non-zero: " + g)
                 continue
@@ -629,6 +699,20 @@ def _dispatch_never_raises(ctx):
     return ctx.get("c11.dispatch_never_raises", build)
 
 
+def _abstract_marker(P, f, nd):
+    """`raise NotImplementedError` as the whole body of a method of a class that has subclasses, every leaf subclass of which
+    overrides the method: the documented entry classes (the leaves) never reach it."""
+    exc = nd.exc.func if isinstance(nd.exc, ast.Call) else nd.exc
+    if not (isinstance(exc, ast.Name) and exc.id == "NotImplementedError") or f.cls is None or f.is_lambda:
+        return False
+    stmts = [s_ for s_ in f.node.body if not (isinstance(s_, ast.Expr) and isinstance(s_.value, ast.Constant))]
+    if len(stmts) != 1 or stmts[0] is not nd:
+        return False
+    subs = [k for k in P.subclasses(f.cls) if k is not f.cls]
+    leaves = [k for k in subs if not any(k2 is not k and k in P.mro(k2) for k2 in subs)]
+    return bool(leaves) and all(P.method(k, f.name) is not None and P.method(k, f.name) is not f for k in leaves)
+
+
 def _asserts_hold(ctx, f):
     """{id(assert node): True} for the assert statements of f whose condition folds to true each time the value-numbered
     body of f reaches them (receiver and parameters symbolic, callees inlined)."""
@@ -701,6 +785,9 @@ def raise_rule(ctx, R):
                     # it); it is reported only when the value-numbered body refutes it on some path
                     R.ok("C11.RAISE", "%s|%s" % (q, ntext(nd)[:40]), where(f, nd), "asserted invariant, not refuted by the value-numbered body (not shown either)", nontrivial=False)
                     continue
+            if isinstance(nd, ast.Raise) and _abstract_marker(P, f, nd):
+                R.ok("C11.RAISE", "%s|%s" % (q, ntext(nd)[:40]), where(f, nd), "abstract method: every concrete class of the family overrides it", nontrivial=False)
+                continue
             if isinstance(nd, (ast.Raise, ast.Assert)):
                 ok = q in ALLOWED_RAISE and isinstance(nd, ast.Raise)
                 if ok:
@@ -873,6 +960,31 @@ def _foreign_receiver(e, f, T):
 
 
 @rule("GEN.ATTRS")
+def _effective_signature(P, m):
+    """The function whose signature a call of method m must match: m itself; or, when m carries decorators that are
+    module-level functions of the package, the local function the (outermost) decorator returns; None if that cannot be told."""
+    decos = []
+    for d in getattr(m.node, "decorator_list", []) if not m.is_lambda else []:
+        if isinstance(d, ast.Name):
+            g = P.funcs.get("%s.%s" % (m.module.name, d.id))
+            if g is not None and g.parent is None and g.cls is None:
+                decos.append(g)
+        elif isinstance(d, ast.Call) or isinstance(d, ast.Attribute):
+            nm = ntext(d.func if isinstance(d, ast.Call) else d)
+            if nm.split(".")[0] in ("functools", "contextlib", "abc") or nm in ("property", "staticmethod", "classmethod"):
+                continue
+            return None
+    if not decos:
+        return m
+    g = decos[0]  # outermost
+    rets = [n for n in walk_local(g.node) if isinstance(n, ast.Return)]
+    if len(rets) == 1 and isinstance(rets[0].value, ast.Name):
+        inner = [h for h in P.funcs.values() if h.parent is g and not h.is_lambda and h.name == rets[0].value.id]
+        if len(inner) == 1:
+            return inner[0]
+    return None
+
+
 def attrs(ctx, R, reach=None, floor=150):
     """Every attribute read through `self` is a method/class attribute or assigned somewhere in the package."""
     P = ctx.P
@@ -910,6 +1022,7 @@ def attrs(ctx, R, reach=None, floor=150):
                     for t in stn.targets:
                         if isinstance(t, ast.Name):
                             init_attrs.add(t.id)
+            init_attrs |= set(getattr(k, "fields", ()))  # annotated class-level names (NamedTuple / dataclass fields)
         for nd in walk_local(f.node):
             if isinstance(nd, ast.Attribute) and isinstance(nd.ctx, ast.Load) and isinstance(nd.value, ast.Name) and nd.value.id == selfn:
                 n += 1
@@ -938,7 +1051,12 @@ def attrs(ctx, R, reach=None, floor=150):
                 if m is None and not any(P.method(k, c.func.attr) is not None for k in P.subclasses(g.cls)) and c.func.attr not in stored:
                     R.bad("GEN.ATTRS", "%s|self.%s()" % (q, c.func.attr), where(f, c), "`self.%s(...)`: %s has no such method (AttributeError)" % (c.func.attr, g.cls.name))
                 elif m is not None:
-                    # arity
+                    # arity (of what the name is bound to: a decorator of the package that returns a local function replaces
+                    # the signature by that function's; other package decorators: not judged)
+                    eff = _effective_signature(P, m)
+                    if eff is None:
+                        continue
+                    m = eff
                     npos = len(c.args)
                     params = m.params[1:] if not m.is_staticmethod else m.params
                     required = [p for p in params if p not in m.defaults]
@@ -1066,7 +1184,9 @@ def timeline_opts(ctx, R):
     P = ctx.P
     f = P.func("timeline.Timeline.__init__")
     R.saw(f)
-    evt = new_eval(P, inline_filter=lambda fn: fn.qual in (f.qual,))
+    from .c07 import _ctor_helper
+
+    evt = new_eval(P, inline_filter=lambda fn: fn.qual in (f.qual,) or _ctor_helper(fn, f))
     st = evt.new_state(f)
     s = Opaque("self", cls=P.cls("timeline.TimelineSVG"), kind="obj")
     opts = Opaque("OPTS", kind="obj")
@@ -1321,6 +1441,78 @@ def _registry_refined(ctx, graph):
     return G
 
 
+def _literal_depth(e):
+    if isinstance(e, ast.Dict):
+        return 1 + max([_literal_depth(v) for v in e.values] + [0])
+    if isinstance(e, (ast.List, ast.Tuple, ast.Set)):
+        return 1 + max([_literal_depth(v) for v in e.elts] + [0])
+    return 0
+
+
+def _recursion_on_literal(ctx, f):
+    """A self-recursive function whose every recursive call sits in a loop over (the items of) one of its parameters and hands
+    the loop's element on in that same parameter, and which is entered from outside only with a module-level literal for that
+    parameter, recurses at most as deep as the literal is nested.  Returns the reason text or None."""
+    if f is None or f.is_lambda or f.cls is not None:
+        return None
+    P = ctx.P
+    rec = [c for c in ast.walk(f.node) if isinstance(c, ast.Call) and isinstance(c.func, ast.Name) and c.func.id == f.name]
+    if not rec:
+        return None
+    pidx = None
+    for c in rec:
+        # enclosing for-loops over a parameter
+        n = c
+        found = None
+        while n is not None and n is not f.node:
+            par = getattr(n, "_parent", None)
+            if isinstance(par, ast.For) and n in par.body:
+                it = par.iter
+                src = None
+                if isinstance(it, ast.Name):
+                    src = it.id
+                elif isinstance(it, ast.Call) and isinstance(it.func, ast.Attribute) and it.func.attr in ("items", "values") and isinstance(it.func.value, ast.Name) and not it.args:
+                    src = it.func.value.id
+                if src in f.params:
+                    tn = {x.id for x in ast.walk(par.target) if isinstance(x, ast.Name)}
+                    i = f.params.index(src)
+                    arg = c.args[i] if i < len(c.args) else next((k.value for k in c.keywords if k.arg == src), None)
+                    if isinstance(arg, ast.Name) and arg.id in tn:
+                        found = i
+                        break
+            n = par
+        if found is None or (pidx is not None and found != pidx):
+            return None
+        pidx = found
+    pname = f.params[pidx]
+    if any(isinstance(n, ast.Name) and n.id == pname and isinstance(n.ctx, ast.Store) for n in walk_local(f.node)):
+        return None
+    depth = 0
+    n_ext = 0
+    for caller, sites in ctx.cg.sites.items():
+        if caller == f.qual:
+            continue
+        for call, quals in sites:
+            if f.qual not in quals:
+                continue
+            n_ext += 1
+            arg = call.args[pidx] if pidx < len(call.args) else next((k.value for k in call.keywords if k.arg == pname), None)
+            g = P.funcs.get(caller)
+            mod = g.module if g is not None else f.module
+            lit = arg
+            if isinstance(arg, ast.Name):
+                ga = mod.global_assigns(arg.id)
+                lit = ga[0].value if len(ga) == 1 else None
+                if any(isinstance(x, ast.Global) and arg.id in x.names for x in ast.walk(mod.tree)):
+                    lit = None
+            if not isinstance(lit, (ast.Dict, ast.List, ast.Tuple, ast.Set)):
+                return None
+            depth = max(depth, _literal_depth(lit))
+    if not n_ext:
+        return None
+    return "%s recurses only on the elements of its parameter `%s`, which every outside call binds to a module-level literal nested %d deep" % (f.qual, pname, depth)
+
+
 @rule("C11.RECURSION")
 def recursion(ctx, R):
     P = ctx.P
@@ -1365,6 +1557,11 @@ def recursion(ctx, R):
 
     for comp in comps:
         name = "cycle through " + ", ".join(sorted(comp)[:3]) + (" ..." if len(comp) > 3 else "")
+        if len(comp) == 1:
+            lit = _recursion_on_literal(ctx, P.funcs.get(sorted(comp)[0].split("@")[0]))
+            if lit:
+                R.ok("C11.RECURSION", "recursive function %s" % sorted(comp)[0], P.funcs[sorted(comp)[0].split("@")[0]].loc(), "depth bounded by a constant: " + lit)
+                continue
         frames = _longest_cycle(graph, comp)
         # known finding: recursion depth grows with the size of a conflict cluster
         tops = set()
